@@ -1,21 +1,28 @@
-SPECIFICATION Spec
+SPECIFICATION SSpec
 CONSTANTS
+  FocusAll = FALSE
   Callers = {1, 2}
-  MaxCalls = 1
-  Cap = 2
-  Cancelable = {}
-  Deadline = {}
-  Batch = {2}
-  MaxCuts = 1
-  MaxCloses = 1
-  MaxExpires = 0
-  MaxPush = 0
-  MaxStalls = 0
-  FixEntryRace = TRUE
-  BugNoDrain = FALSE
-  BugNoDeferred = FALSE
-  BugCloseKeepsConn = FALSE
-  QueueCtx = FALSE
-  MaskE1 = FALSE
-INVARIANTS TypeOK OwnReplies ErrorAfterBreak ClosingAfterClose SyncExclusive ProtocolOk NoHang
+  MaxCalls = 2
+  MaxTotal = 3
+  Kinds = {"do", "multi"}
+  PushKinds = {"invalidate"}
+  MaxPush = 1
+  MaxCancel = 1
+  MaxCut = 0
+  UseHold = TRUE
+  InvalOn = TRUE
+  Eager = TRUE
+  Gen = FALSE
+  BugOffByOne = FALSE
+  BugRecycle = FALSE
+  BugSplitBatch = FALSE
+  BugFutureReply = FALSE
+  BugUnsubFirstOnly = FALSE
+  BugSkipMsg = FALSE
+  BugNoLossNil = FALSE
+  BugSkipInval = FALSE
+  Dedicated = FALSE
+  BugNoTrackingOff = FALSE
+VIEW MCView
+INVARIANTS TypeOK OwnRepliesInOrder NoReplyFromFuture BatchContiguousOnWire NoSpuriousError AllReturnedAtQuiesce ArgvImmutable PubSubOrder ReceiveReturn ReceiveEndsByItself HookOrder HookClosedOnce InvalidationLog LossNilOnce TrackingOffOnRelease
 CHECK_DEADLOCK FALSE
